@@ -459,3 +459,29 @@ def vm_sample(meta, outdir, trace, k, seed):
     if rc != 0 or not m:
         return 0, -1, out[-3000:]
     return int(m.group(1)), int(m.group(2)), out[-500:]
+
+
+# ---------------------------------------------------------------- coqchk (thorough tier)
+
+def coqchk(lib, module="Properties", timeout=3600):
+    """Independent re-check of the compiled library with coqchk -o; cached on the .vo contents.
+    Returns (ok, axioms_text)."""
+    h = hashlib.sha256()
+    for l in lib_closure([lib]):
+        d = os.path.join(COQ, l)
+        for f in sorted(os.listdir(d)):
+            if f.endswith(".vo"):
+                h.update(f.encode())
+                h.update(open(os.path.join(d, f), "rb").read())
+    key = h.hexdigest()[:24]
+    cd = os.path.join(BUILD, "coqchk")
+    os.makedirs(cd, exist_ok=True)
+    cp = os.path.join(cd, "%s-%s.txt" % (lib, key))
+    if os.path.exists(cp):
+        txt = open(cp).read()
+        return txt.startswith("OK"), txt
+    cmd = ["coqchk", "-silent", "-o"] + qflags(lib) + ["%s.%s" % (lib, module)]
+    rc, out = run(cmd, cwd=cd, timeout=timeout)
+    txt = ("OK\n" if rc == 0 else "FAILED rc=%d\n" % rc) + " ".join(cmd) + "\n" + out[-6000:]
+    open(cp, "w").write(txt)
+    return rc == 0, txt
